@@ -255,6 +255,11 @@ func (j *JA4Fingerprint) unmarshalSignatureAlgorithm(chs *utls.ClientHelloSpec) 
 	for _, e := range chs.Extensions {
 		if sae, ok := e.(*utls.SignatureAlgorithmsExtension); ok {
 			for _, a := range sae.SupportedSignatureAlgorithms {
+				// GREASE values are ignored everywhere in JA4, the
+				// signature algorithm list included
+				if isGREASEUint16(uint16(a)) {
+					continue
+				}
 				algo = append(algo, uint16(a))
 			}
 		}
